@@ -154,6 +154,7 @@ impl Scope {
     }
 }
 
+#[derive(Clone)]
 pub struct Gen {
     pub profile: Profile,
     memo: HashMap<(usize, Scope), Rc<Vec<E>>>,
@@ -723,7 +724,7 @@ pub fn for_each_sharded(
     nshards: usize,
     f: &mut dyn FnMut(u64, E),
 ) -> u64 {
-    let mut g = Gen::new(profile);
+    let mut g = warmed(profile, n);
     let mut idx = 0u64;
     g.for_each_lazy(n, ROOT, &mut |mk| {
         if (idx % nshards as u64) as usize == shard {
@@ -732,4 +733,36 @@ pub fn for_each_sharded(
         idx += 1;
     });
     idx
+}
+
+/// Generators whose memo tables were filled in the parent process before forking (children
+/// inherit them copy-on-write instead of recomputing them per shard).
+pub struct Warm(pub std::sync::Mutex<Vec<(Profile, usize, SendGen)>>);
+pub struct SendGen(pub Gen);
+// Safety: a `Gen` is only ever touched by one thread at a time (behind the mutex) and its Rc
+// counts are process-local.
+unsafe impl Send for SendGen {}
+
+pub static WARM: Warm = Warm(std::sync::Mutex::new(Vec::new()));
+
+/// Fills the memo tables needed to enumerate size `n` (call in the parent before forking).
+pub fn warm(profile: Profile, n: usize) {
+    let mut g = Gen::new(profile);
+    if n > 1 {
+        g.count(n, ROOT);
+    }
+    let mut w = WARM.0.lock().unwrap();
+    w.retain(|(p, m, _)| !(*p == profile && *m == n));
+    if w.len() > 2 {
+        w.remove(0);
+    }
+    w.push((profile, n, SendGen(g)));
+}
+
+fn warmed(profile: Profile, n: usize) -> Gen {
+    let w = WARM.0.lock().unwrap();
+    match w.iter().find(|(p, m, _)| *p == profile && *m == n) {
+        Some((_, _, g)) => g.0.clone(),
+        None => Gen::new(profile),
+    }
 }
